@@ -23,6 +23,10 @@ void harness(void) {
 	if (res == KSI_OK && result != NULL && result->resultCode == KSI_VER_RES_FAIL && g16.calls > 4) REACH("FAIL INT-16 at a later link");
 	if (result != NULL && result->resultCode == KSI_VER_RES_NA) REACH("verdict NA / error status");
 	if (result != NULL && result->resultCode == KSI_VER_RES_NA && g16.na) REACH("NA: left link without imprint");
+	/* (audit builderY, dfcc __invalid_ptr sharing) outcomes of the replaced getNextLink at a LATER iteration than the first */
+	if (res == KSI_OK && result != NULL && result->resultCode == KSI_VER_RES_OK && g16.lefts >= 1) REACH("verdict OK after one or more left links (list exhausted at a later iteration)");
+	if (result != NULL && result->resultCode == KSI_VER_RES_NA && g16.na && g16.lefts >= 2) REACH("NA: a later left link without imprint");
+	if (res == KSI_OK && result != NULL && result->resultCode == KSI_VER_RES_FAIL && g16.lefts >= 2) REACH("FAIL INT-16 at a later left link");
 }
 #endif
 #ifdef H_getNextLink
